@@ -11,17 +11,24 @@ pub fn clist(items: Vec<String>) -> String {
     level.pop().unwrap()
 }
 
+/// bytes as primitive-integer literals (list PrimInt63.int)
 pub fn cbytes(xs: &[u8]) -> String {
-    clist(xs.iter().map(|x| x.to_string()).collect())
+    format!("({})%uint63", clist(xs.iter().map(|x| x.to_string()).collect()))
 }
 
-pub fn cu64s(xs: &[u64]) -> String {
-    clist(xs.iter().map(|x| x.to_string()).collect())
+/// values of a T-bit type as primitive-integer literals; T = 64: (low 32 bits, high 32 bits) per value
+pub fn cvals(t: usize, xs: &[u64]) -> String {
+    let items: Vec<String> = if t == 64 {
+        xs.iter().flat_map(|x| [(x & 0xFFFF_FFFF).to_string(), (x >> 32).to_string()]).collect()
+    } else {
+        xs.iter().map(|x| x.to_string()).collect()
+    };
+    format!("({})%uint63", clist(items))
 }
 
-/// list (list N) from a flat buffer and offsets
+/// list (list PrimInt63.int) from a flat buffer and offsets
 pub fn cstrs(data: &[u8], offs: &[usize]) -> String {
-    clist((1..offs.len()).map(|i| cbytes(&data[offs[i - 1]..offs[i]])).collect())
+    format!("({})%uint63", clist((1..offs.len()).map(|i| clist(data[offs[i - 1]..offs[i]].iter().map(|x| x.to_string()).collect())).collect()))
 }
 
 pub fn hex(xs: &[u8]) -> String {
